@@ -36,7 +36,13 @@ package mikey
 //@     invariant len(p.SubPayloads) >= old(len(p.SubPayloads))
 //@     invariant forall j :: 0 <= j && j < len(p.SubPayloads) && j >= old(len(p.SubPayloads)) ==> p.SubPayloads[j] != nil && (p.SubPayloads[j].KV == SubPayloadKeyDataKVNull ==> p.SubPayloads[j].SPI == nil)
 
+// A security-policy payload is refused for lack of bytes only when bytes are really lacking: a
+// parameter whose value ends exactly at the end of the buffer (SP as the last payload of a
+// message, which is what Marshal produces) is accepted.
 //@ func (p *PayloadSP) unmarshal
+//@   assert[C09]@return#1 len(buf) < 5
+//@   assert[C09]@return#4 n + 2 > len(buf)
+//@   assert[C09]@return#5 n + valueLen > len(buf)
 //@   loop 1
 //@     invariant 5 <= n && n <= len(buf)
 
